@@ -197,12 +197,12 @@ func (W *World) indexFuncs() {
 // Gen is the common generator context: SMT context + world + layout.
 type Gen struct {
 	*Ctx
-	W       *World
-	L       *Layout
-	entry   *State
-	touched map[string]bool // global facts already emitted: name@arrayversion
-	keys    map[string]Sort // heap keys used
-	reveal  map[string]bool // opaque macros expanded in this context
+	W           *World
+	L           *Layout
+	entry       *State
+	touched     map[string]bool // global facts already emitted: name@arrayversion
+	keys        map[string]Sort // heap keys used
+	reveal      map[string]bool // opaque macros expanded in this context
 	noSideFacts bool
 }
 
